@@ -165,6 +165,13 @@ func (m *vmMachine) install() {
 		hostPte := x >> 9
 		virt, ok := m.lastVirt[hostPte]
 		if !ok {
+			// not "pointer of the entry << 9" (what the shipped Map passes, the pointer being a host
+			// pointer under this seam): then the address of the new table itself, in the recursive
+			// window - on real hardware, where the entry pointer is the entry address, the two are
+			// the same number
+			if h, ok := m.hwPtr(x); ok {
+				return h
+			}
 			panic(vmFault{"harness: nextAddrFn called for an entry that was not produced by the walk"})
 		}
 		// what the kernel computes on real hardware: entry address << 9
